@@ -183,17 +183,21 @@ func runBytes(r *rc) {
 		}
 	}
 	r.Bound("all_bytes_max_len", "2")
-	// length 3 over the 40-byte alphabet
-	for _, a := range byteAlphabet {
-		for _, b := range byteAlphabet {
-			for _, c := range byteAlphabet {
+	// length 3 over the 40-byte alphabet (quick tier: over its first 16 bytes)
+	alphabet := byteAlphabet
+	if !r.Thorough() {
+		alphabet = byteAlphabet[:16]
+	}
+	for _, a := range alphabet {
+		for _, b := range alphabet {
+			for _, c := range alphabet {
 				if !run([]byte{a, b, c}) {
 					return
 				}
 			}
 		}
 	}
-	r.Bound("alphabet40_len", "3")
+	r.Bound("alphabet_len3", fmt.Sprint(len(alphabet)))
 	r.Bound("routes", strings.Join(routes, ","))
 }
 
@@ -241,6 +245,14 @@ func runTokens(r *rc) {
 		}
 		if depth == maxLen {
 			return true
+		}
+		if !r.Thorough() && depth == 3 {
+			// quick tier: length 4 only over the first 12 tokens
+			for _, t := range idx {
+				if t >= 12 {
+					return true
+				}
+			}
 		}
 		for t := 0; t < n; t++ {
 			idx = append(idx, t)
